@@ -312,6 +312,24 @@ func main() {
 			o := gnet.VerifClientOptions(cli)
 			checkCap("ReadBufferCap", c, o.ReadBufferCap)
 			checkCap("WriteBufferCap", c, o.WriteBufferCap)
+			// the three requests are independent of each other
+			for k := 0; k < 3; k++ {
+				rc, wc, cc := caps[r.Intn(len(caps))], caps[r.Intn(len(caps))], caps[r.Intn(len(caps))]
+				if rc > 1<<62 || wc > 1<<62 || cc > 1<<62 {
+					continue
+				}
+				cli, err := gnet.NewClient(&gnet.BuiltinEventEngine{}, gnet.WithReadBufferCap(rc), gnet.WithWriteBufferCap(wc), gnet.WithEdgeTriggeredIOChunk(cc))
+				if err != nil {
+					res.Violate("C16 NewClient error", fmt.Sprintf("caps %d/%d/%d: %v", rc, wc, cc, err), nil)
+					return
+				}
+				o := gnet.VerifClientOptions(cli)
+				checkCap("ReadBufferCap(independent)", rc, o.ReadBufferCap)
+				checkCap("WriteBufferCap(independent)", wc, o.WriteBufferCap)
+				if cc > 0 && (!o.EdgeTriggeredIO || !isPow(o.EdgeTriggeredIOChunk) || o.EdgeTriggeredIOChunk < cc) {
+					res.Violate("C16 EdgeTriggeredIOChunk normalisation", fmt.Sprintf("chunk requested %d (read %d, write %d) -> ET=%v chunk=%d", cc, rc, wc, o.EdgeTriggeredIO, o.EdgeTriggeredIOChunk), map[string]any{"opt": "chunk", "req": cc})
+				}
+			}
 			evals++
 			if c > 0 {
 				if !o.EdgeTriggeredIO || !isPow(o.EdgeTriggeredIOChunk) || o.EdgeTriggeredIOChunk < c {
@@ -344,6 +362,18 @@ func main() {
 			}
 			checkCap("ReadBufferCap(server)", c, o.ReadBufferCap)
 			checkCap("WriteBufferCap(server)", c, o.WriteBufferCap)
+			for _, pair := range [][3]int{{512, 5000, 0}, {5000, 512, 3000}, {0, 70000, 100}, {1 << 20, 1, 1 << 16}, {3, 1<<20 + 1, 5}} {
+				o, err := gnet.VerifCreateListeners([]string{"tcp://127.0.0.1:0"}, gnet.WithReadBufferCap(pair[0]), gnet.WithWriteBufferCap(pair[1]), gnet.WithEdgeTriggeredIOChunk(pair[2]))
+				if err != nil {
+					res.Inconc("createListeners on port 0 failed: %v", err)
+					return
+				}
+				checkCap("ReadBufferCap(server,independent)", pair[0], o.ReadBufferCap)
+				checkCap("WriteBufferCap(server,independent)", pair[1], o.WriteBufferCap)
+				if pair[2] > 0 && (!o.EdgeTriggeredIO || !isPow(o.EdgeTriggeredIOChunk) || o.EdgeTriggeredIOChunk < pair[2]) {
+					res.Violate("C16 EdgeTriggeredIOChunk normalisation", fmt.Sprintf("server chunk requested %d -> ET=%v chunk=%d", pair[2], o.EdgeTriggeredIO, o.EdgeTriggeredIOChunk), map[string]any{"opt": "chunk", "req": pair[2]})
+				}
+			}
 			if c > 0 && (!o.EdgeTriggeredIO || !isPow(o.EdgeTriggeredIOChunk) || o.EdgeTriggeredIOChunk < c) {
 				res.Violate("C16 EdgeTriggeredIOChunk normalisation", fmt.Sprintf("server chunk requested %d -> ET=%v chunk=%d", c, o.EdgeTriggeredIO, o.EdgeTriggeredIOChunk), map[string]any{"opt": "chunk", "req": c})
 			}
